@@ -1811,3 +1811,52 @@ func c20EndDecrements(c *Ctx) {
 	c.R.Checkf(rule, "end-decrements-any-positive-count@EndReloadProxyFailureSuppression", c.pos(f.Pos()), ok && n == 1,
 		"the scope counter is lowered by compare-and-swap from the value just loaded to that value minus one (%s): scopes can overlap (a new request is admitted between the release of the flag and the end of the previous scope), and a release that only handles the count 1 leaves node-failure reports muted for ever at 2", detail)
 }
+
+// C05 STICKYERR: a bufio.Reader remembers a read error (here: the expired
+// detection deadline) and returns it from a later Read once its buffer is
+// empty.  bufioConn.Read therefore goes through the bufio.Reader only while it
+// still holds buffered bytes and reads the connection directly otherwise.
+func c05StickyErr(c *Ctx) {
+	const rule = "PREFIX"
+	f := c.fn(rule, "control", "bufioConn.Read")
+	if f == nil {
+		return
+	}
+	info := f.Info()
+	g := f.Graph()
+	n, ok := 0, true
+	for _, b := range g.CFG.Blocks {
+		if !b.Live {
+			continue
+		}
+		for i, nd := range b.Nodes {
+			hit := false
+			ownCalls(nd, func(call *ast.CallExpr, _ bool) {
+				if recv, name, isM := methodCall(call); isM && name == "Read" && core.FieldOf(info, recv) == "bufioConn.reader" {
+					hit = true
+				}
+			})
+			if !hit {
+				continue
+			}
+			n++
+			guarded := false
+			for _, gd := range g.Guards(core.Point{B: b, I: i}) {
+				for _, at := range core.Atoms(gd.Cond, gd.Polarity) {
+					be, isB := at.Cond.(*ast.BinaryExpr)
+					if !isB || !strings.HasSuffix(core.ExprStr(be.X), ".Buffered()") || core.ExprStr(be.Y) != "0" {
+						continue
+					}
+					if (be.Op == token.EQL && !at.Polarity) || (be.Op == token.GTR && at.Polarity) || (be.Op == token.NEQ && at.Polarity) {
+						guarded = true
+					}
+				}
+			}
+			if !guarded {
+				ok = false
+			}
+		}
+	}
+	c.R.Checkf(rule, "drained-bufio-reader-is-bypassed@bufioConn.Read", c.pos(f.Pos()), ok,
+		"bufioConn.Read calls the bufio.Reader only on the edge where it still has buffered bytes (%d call(s)); with an empty buffer the reader would return its remembered error — the detection window's timeout — as the result of the relay's first read, and the connection is cut although it is healthy", n)
+}
